@@ -91,6 +91,11 @@ def _shape_text(f, text):
     for n in ast.walk(e):
         if isinstance(n, ast.Name) and n.id not in keep:
             n.id = '_'
+    # which element is written does not matter for the shape of the write
+    for n in ast.walk(e):
+        if isinstance(n, ast.Subscript) and not (
+                isinstance(n.slice, ast.Name) and n.slice.id in keep):
+            n.slice = ast.Name(id='_', ctx=ast.Load())
     return ast.unparse(e)
 
 
